@@ -51,14 +51,15 @@ func Run(r *core.Run) {
 		r.Cap("cannot read VERIF_OVERLAY: " + err.Error())
 		return
 	}
-	st, err := o.Instrument(dir, "/repo/tss/party.go", []string{"rnd", "failed", "early"}, []string{"StoreMessage", "Start", "Update", "CanProceed"})
+	st, err := o.Instrument(dir, "/repo/tss/party.go", []string{"*"}, []string{"StoreMessage", "Start", "Update", "CanProceed"})
 	if err != nil {
 		fmt.Fprintln(os.Stderr, "INFRASTRUCTURE: cannot instrument tss/party.go:", err)
 		os.Exit(2)
 	}
 	if !st.SyncImport || st.AccessHooks < 5 {
-		fmt.Fprintf(os.Stderr, "INFRASTRUCTURE: instrumentation of tss/party.go found too little (%+v)\n", st)
-		os.Exit(2)
+		// the file no longer has the shape the instrumentation expects (no sync import / hardly any access to
+		// mutex-protected fields): the exploration still runs with what was found; say so instead of failing
+		r.Cap(fmt.Sprintf("instrumentation of tss/party.go found little (%+v): lock-set monitor / scheduling points may be incomplete", st))
 	}
 	r.Set("instrumentation", fmt.Sprintf("%+v", st))
 	ovPath, _ := o.Write(dir)
